@@ -3,7 +3,7 @@
     ck  <L> <K:int> <H:hex> <sid:hex> <letter:hex1> <n>     → hex of computeKey
     rfc <L> <K:int> <H:hex> <sid:hex> <letter:hex1> <n>     → hex of rfcKey (the Lean *spec*; validated
                                                               against the harness's RFC oracle)
-    act <L> <K:int> <H:hex> <sid:hex> <role:c|s> <dir:in|out> <cipher> <mac>
+    act <L> <K:int> <H:hex> <sid:hex> <role:c|s> <dir:in|out> <local_cipher> <remote_cipher> <local_mac> <remote_mac>
         → iv key mackey macKeyArg ivArg macSizeArg blockSizeArg   (`none` for a Python None)
   cipher / mac are looked up in the tables regenerated from the source; unknown → `unknown-algo`.
 -/
@@ -32,19 +32,22 @@ def step (line : String) : String :=
       else if op == "rfc" then toHexTok ((rfcStream (toyHash l) k hh sid x ((n + l - 1) / l)).take n)
       else "bad-op"
     | _, _, _ => "bad-op"
-  | ["act", l, k, hh, sid, role, dir, cipher, mac] =>
+  | ["act", l, k, hh, sid, role, dir, lcipher, rcipher, lmac, rmac] =>
     match parseCommon l k hh sid with
     | some (l, k, hh, sid) =>
       let role? : Option Bool := if role == "s" then some true else if role == "c" then some false else none
       let dir? : Option Dir := if dir == "in" then some .inbound else if dir == "out" then some .outbound else none
       match role?, dir? with
       | some sm, some d =>
-        match PV.Generated.C04.cipherTable.find? (·.name == cipher),
-              PV.Generated.C04.macTable.find? (·.name == mac) with
-        | some ci, some mi =>
-          let r := activate (toyHash l) k hh sid sm d ci mi
+        match PV.Generated.C04.cipherTable.find? (·.name == lcipher),
+              PV.Generated.C04.cipherTable.find? (·.name == rcipher),
+              PV.Generated.C04.macTable.find? (·.name == lmac),
+              PV.Generated.C04.macTable.find? (·.name == rmac) with
+        | some lc, some rc, some lm, some rm =>
+          let r := activateDir (toyHash l) k hh sid sm d
+            { localCipher := lc, remoteCipher := rc, localMac := lm, remoteMac := rm }
           s!"{toHexTok r.iv} {toHexTok r.key} {toHexTok r.macKey} {optTok r.macKeyArg} {optTok r.ivArg} {r.macSizeArg} {r.blockSizeArg}"
-        | _, _ => "unknown-algo"
+        | _, _, _, _ => "unknown-algo"
       | _, _ => "bad-op"
     | none => "bad-op"
   | _ => "bad-op"
